@@ -99,9 +99,39 @@ def _assign(c, p):
         c[...] = p
 
 
-def enabled_ops(world, hist):
+SINGLE_NEW = [(0, 'own'), (0, 'max'), (2, 'own'), (4, 'own'), (1, 'max'), (5, 'own'), (0, 'min'), (3, 'own')]
+
+
+def enabled_ops_single(world, hist, quick):
+    """one live object, long histories: construct once, then call / set / restore in any order"""
+    if not hist:
+        news = SINGLE_NEW[:4] if quick else SINGLE_NEW
+        return [('new', 'A', ci, g) for ci, g in news]
+    obj = world.slots['A']
+    ops = [('call', 'A', 0), ('call', 'A', 2), ('callbuf', 'A', 3)]
+    for n in N_ALT:
+        if n != obj.n:
+            ops.append(('set', 'A', 'n', n))
+    for o in O_ALT:
+        if o != obj.order:
+            ops.append(('set', 'A', 'order', o))
+    if world.orig['A'][1] != 'complex':
+        for m in M_ALT:
+            if m != obj.method:
+                ops.append(('set', 'A', 'method', m))
+    if (obj.method, obj.n, obj.order) != world.orig['A'][1:4]:
+        ops.append(('restore', 'A'))
+    return ops
+
+
+def enabled_ops(world, hist, mode='full'):
+    if mode != 'full':
+        return enabled_ops_single(world, hist, mode == 'single-quick')
     ops = []
     for s in SLOTS:
+        if s == 'B' and world.slots['A'] is None:
+            continue      # the two slots are interchangeable: fill A first
+
         for ci, cfg in enumerate(POOL):
             ops.append(('new', s, ci, 'own'))
             if cfg[4] == 'default' and cfg[1] != 'complex':
@@ -207,7 +237,7 @@ def hist_class(hist):
     return '+'.join(kinds) or 'fresh'
 
 
-def work_level(chunk, refs=None):
+def work_level(chunk, refs=None, mode='full'):
     """Expand every history of the chunk by every enabled operation."""
     acc = fw.Acc()
     ms = modstate()
@@ -215,7 +245,7 @@ def work_level(chunk, refs=None):
     for hist in chunk:
         hist = [tuple(o) for o in hist]
         base = build_world(hist, ms)
-        for op in enabled_ops(base, hist):
+        for op in enabled_ops(base, hist, mode):
             w = copy.deepcopy(base)
             obs = apply_op(w, op, ms)
             h2 = hist + [op]
@@ -255,7 +285,7 @@ def merge_children(accs):
     pass
 
 
-def explore_histories(ctx, refs, depth, acc):
+def explore_histories(ctx, refs, depth, acc, mode='full'):
     """level-synchronised BFS; the frontier is distributed over the workers"""
     ms_digest0 = None
     seen = set()
@@ -267,7 +297,7 @@ def explore_histories(ctx, refs, depth, acc):
         if not frontier:
             break
         # pmap merges Acc objects; children come back through extra['children'] -> collect per chunk
-        res = _pmap_collect(ctx, frontier, refs)
+        res = _pmap_collect(ctx, frontier, refs, mode)
         acc.merge(res['acc'])
         nxt = []
         for d, h in sorted(res['children'], key=lambda t: (len(t[1]), repr(t[1]))):
@@ -281,14 +311,14 @@ def explore_histories(ctx, refs, depth, acc):
     return dict(states=states, transitions=transitions, depth=depth_done, frontier_left=len(frontier))
 
 
-def _pmap_collect(ctx, frontier, refs):
+def _pmap_collect(ctx, frontier, refs, mode='full'):
     """like ctx.pmap but keeps every chunk's children list"""
     import multiprocessing as mp
     items = [list(h) for h in frontier]
     jobs = max(1, min(ctx.jobs, len(items)))
     chunk = max(1, min(50, len(items) // (jobs * 3) or 1))
     chunks = [items[i:i + chunk] for i in range(0, len(items), chunk)]
-    tasks = [('mc.props.c09', 'work_level', c, dict(refs=refs)) for c in chunks]
+    tasks = [('mc.props.c09', 'work_level', c, dict(refs=refs, mode=mode)) for c in chunks]
     total = fw.Acc()
     children = []
 
@@ -421,8 +451,13 @@ def run(ctx):
     refs = collect_refs(ctx)
     acc = fw.Acc()
     acc.count('reference_interpreters', len(refs))
-    depth = 3 if q else 5
+    depth = 3 if q else 4
     hs = explore_histories(ctx, refs, depth, acc)
+    # long single-object histories (construct, then any order of call / set n|order|method / restore)
+    sdepth = 5 if q else 7
+    hs1 = explore_histories(ctx, refs, sdepth, acc, mode='single-quick' if q else 'single')
+    hs = dict(states=hs['states'] + hs1['states'], transitions=hs['transitions'] + hs1['transitions'], depth=hs['depth'],
+              single_object_depth=hs1['depth'])
     # schedules
     jobs = []
     shards = 8
@@ -448,18 +483,20 @@ def run(ctx):
     acc.sample(dict(kind='schedule', threads=[POOL[0], POOL[0]], preemptions=[[137, 1]], granularity='line'))
     acc.sample(dict(kind='reference', cfg=POOL[4], x=XS[2], observation=_short(refs[ref_key(POOL[4], 2)])))
     cov = dict(states=hs['states'], transitions=hs['transitions'], traces_validated_against_impl=hs['transitions'],
-               history_depth_completed=hs['depth'], schedules=nsched, schedule_points=int(acc.counters.get('points', 0)),
+               history_depth_completed=hs['depth'], single_object_history_depth_completed=hs['single_object_depth'],
+               schedules=nsched, schedule_points=int(acc.counters.get('points', 0)),
                preemption_bound_completed=dict(line=1 if q else 2, instruction=0 if q else 1, three_threads=0 if q else 1))
     req = ['sched/%s/line/b1' % '-'.join(str(c) for c in cis) for cis in PAIRS] + ['hist/central', 'hist/forward',
                                                                                    'hist/complex']
     rule = ('references: one fresh interpreter per (configuration, point) (%d subprocesses). E2: BFS over histories of '
             '{new (own / shared Max / shared Min generator), call at 3 points, set n|order|method, restore, clear cache, '
             'warm cache} on 2 object slots and a pool of 6 configurations, merged on an exact digest of all library '
-            'objects and module-level containers, complete to depth %d; every call compared bit for bit with the '
+            'objects and module-level containers, complete to depth %d (two objects, full alphabet) and to depth %d for one '
+            'object with {call, in-place-updated array call, set, restore}; every call compared bit for bit with the '
             'reference. E3: every interleaving of the thread tuples %r with <= %d pre-emption(s) at every executed '
             'library line%s, observations and final rule cache compared with the references; + a free-running '
             '16-thread pass (auxiliary).  Non-trivial = history of >= 2 earlier operations / schedule with >= 1 '
-            'pre-emption.' % (len(refs), hs['depth'], PAIRS if q else PAIRS + TRIPLES, 1 if q else 2,
+            'pre-emption.' % (len(refs), hs['depth'], hs['single_object_depth'], PAIRS if q else PAIRS + TRIPLES, 1 if q else 2,
                               '' if q else ' (bound 1 at every bytecode instruction; 3 threads bound 1)'))
     return fw.finish(ctx, acc, LEVEL, rule, exhaustive=True, required_cells=req, coverage_extra=cov,
                      assumptions=['cooperative scheduler: true parallelism inside numpy C code is not modelled',
